@@ -68,6 +68,7 @@ type Op struct {
 	Sil    *Sil   `json:"sil,omitempty"`
 	ID     string `json:"id,omitempty"`
 	Params []QP   `json:"params,omitempty"`
+	Limit  int    `json:"limit,omitempty"` // kind limit: the new Limits.MaxSilenceSizeBytes
 	Now    int64  `json:"now,omitempty"` // observed
 	Out    string `json:"out,omitempty"` // observed (informational)
 }
@@ -76,6 +77,8 @@ type Case struct {
 	Retention int64 `json:"retention"`
 	MaxSil    int   `json:"max_silences"`
 	MaxSize   int   `json:"max_size"`
+	// Race != nil: not a history but a run of the concurrent engine (race_test.go) with these parameters
+	Race *RaceParams `json:"race,omitempty"`
 	Ops       []Op  `json:"ops"`
 }
 
@@ -200,6 +203,7 @@ type runner struct {
 	tags      map[string]int
 	viol      []vh.Violation
 	ret       time.Duration
+	maxSize   int               // the current Limits.MaxSilenceSizeBytes (starts as c.MaxSize; op kind limit changes it)
 	firstSets map[string]string // canonical id -> matcher sets when first seen
 }
 
@@ -336,9 +340,7 @@ func classifyText(msg string) string {
 
 func (r *runner) newSilences(snapshot io.Reader) {
 	opts := silence.Options{Retention: r.ret, Metrics: prometheus.NewRegistry(), SnapshotReader: snapshot}
-	if r.c.MaxSil != 0 || r.c.MaxSize != 0 {
-		opts.Limits = silence.Limits{MaxSilences: func() int { return r.c.MaxSil }, MaxSilenceSizeBytes: func() int { return r.c.MaxSize }}
-	}
+	opts.Limits = silence.Limits{MaxSilences: func() int { return r.c.MaxSil }, MaxSilenceSizeBytes: func() int { return r.maxSize }}
 	s, err := silence.New(opts)
 	if err != nil {
 		r.t.Fatalf("silence.New: %v", err)
@@ -612,6 +614,12 @@ func (r *runner) exec(i int, prev view) view {
 	time.Sleep(time.Duration(op.Dt))
 	now := time.Now().UnixNano()
 	op.Now = now
+	if op.Kind == "limit" { // the operator reconfigures the size limit (Limits holds functions, read at every call)
+		r.maxSize = op.Limit
+		r.hist = append(r.hist, fmt.Sprintf("(%s, XLimit %s, XLimited)", vh.Z(now), vh.Z(int64(op.Limit))))
+		r.tags["op/limit"]++
+		return prev
+	}
 	r.bcast = nil
 	ctx := context.Background()
 	req, _ := http.NewRequest("GET", "/api/v2/silences", nil)
@@ -1281,7 +1289,7 @@ func (r *runner) gen(g *vh.Rand, v view, now int64, created []string) Op {
 
 // runCase executes a case; with g != nil the ops are generated on the fly (n of them) and recorded into c.
 func runCase(t *testing.T, c *Case, g *vh.Rand, n int, ext string) (term string, viol []vh.Violation, tags map[string]int) {
-	r := &runner{t: t, c: c, canon: map[string]string{}, real: map[string]string{}, tags: map[string]int{}, ret: time.Duration(c.Retention)}
+	r := &runner{t: t, c: c, canon: map[string]string{}, real: map[string]string{}, tags: map[string]int{}, ret: time.Duration(c.Retention), maxSize: c.MaxSize}
 	synctest.Test(t, func(t *testing.T) {
 		r.t = t
 		r.newSilences(nil)
@@ -1352,6 +1360,61 @@ func shortenedDeadlineCases(g *vh.Rand) []Case {
 	return out
 }
 
+// nearLimitCases: with Limits.MaxSilenceSizeBytes set, a silence whose stored form is 0..25 bytes under the limit is
+// created at a whole-second instant (all its timestamps have zero nanos); then, at an instant with nanoseconds, it is
+// expired (Expire / DELETE) or replaced by an edit with other matchers - the expired version is LARGER than the
+// original (its timestamps gain a nanos field). The limit applies to what a user submits, not to expiring what is
+// stored: the expiry must succeed. Also: the operator lowers the limit below the size of stored silences, then Expire.
+func nearLimitCases(t *testing.T) []Case {
+	const limit = 300
+	ret := int64(time.Hour)
+	t0 := int64(epoch) + 1_000_000_000
+	pad := func(target int) string {
+		for n := 0; n < limit; n++ {
+			m := &pb.MeshSilence{Silence: &pb.Silence{Id: strings.Repeat("x", 36), MatcherSets: []*pb.MatcherSet{{Matchers: []*pb.Matcher{{Name: "a", Pattern: "1"}}}},
+				StartsAt: timestamppb.New(time.Unix(0, t0)), EndsAt: timestamppb.New(time.Unix(0, t0+int64(2*time.Hour))), UpdatedAt: timestamppb.New(time.Unix(0, t0)),
+				CreatedBy: "alice", Comment: strings.Repeat("p", n)}, ExpiresAt: timestamppb.New(time.Unix(0, t0+int64(2*time.Hour)+ret))}
+			if proto.Size(m) > target { // the largest stored size <= target (length prefixes make sizes skip a value)
+				if n == 0 {
+					t.Fatalf("generator: even an empty comment exceeds %d bytes", target)
+				}
+				return strings.Repeat("p", n-1)
+			}
+		}
+		return strings.Repeat("p", limit)
+	}
+	mat := [][]Mat{{{0, "a", "1"}}}
+	var out []Case
+	for _, under := range []int{0, 1, 4, 9, 14, 17, 25} {
+		for _, how := range []string{"expire", "apidelete", "replace"} {
+			c := Case{Retention: ret, MaxSize: limit}
+			c.Ops = append(c.Ops, Op{Kind: "set", Dt: 1_000_000_000, Sil: &Sil{Sets: mat, Start: 0, End: t0 + int64(2*time.Hour), By: "alice", Comment: pad(limit - under)}})
+			switch how {
+			case "replace":
+				c.Ops = append(c.Ops, Op{Kind: "set", Dt: 1_333_000_007, Sil: &Sil{ID: "#0", Sets: [][]Mat{{{0, "b", "2"}}}, Start: t0, End: t0 + int64(2*time.Hour), By: "alice", Comment: "c"}})
+			default:
+				c.Ops = append(c.Ops, Op{Kind: how, Dt: 1_333_000_007, ID: "#0"})
+			}
+			c.Ops = append(c.Ops, Op{Kind: "apiget", Dt: 1, ID: "#0"}, Op{Kind: "gc", Dt: ret + 2_000_000_000})
+			out = append(out, c)
+		}
+	}
+	for _, how := range []string{"expire", "apidelete", "replace"} { // the limit is lowered under the stored silences' size
+		c := Case{Retention: ret, MaxSize: limit}
+		c.Ops = append(c.Ops, Op{Kind: "set", Dt: 1_000_000_000, Sil: &Sil{Sets: mat, Start: 0, End: t0 + int64(2*time.Hour), By: "alice", Comment: pad(220)}},
+			Op{Kind: "limit", Dt: 1, Limit: 150})
+		switch how {
+		case "replace":
+			c.Ops = append(c.Ops, Op{Kind: "set", Dt: 1_333_000_007, Sil: &Sil{ID: "#0", Sets: [][]Mat{{{0, "b", "2"}}}, Start: t0, End: t0 + int64(2*time.Hour), By: "alice", Comment: "c"}})
+		default:
+			c.Ops = append(c.Ops, Op{Kind: how, Dt: 1_333_000_007, ID: "#0"})
+		}
+		c.Ops = append(c.Ops, Op{Kind: "apiget", Dt: 1, ID: "#0"}, Op{Kind: "limit", Limit: 0}, Op{Kind: "gc", Dt: ret + 2_000_000_000})
+		out = append(out, c)
+	}
+	return out
+}
+
 func TestCheck(t *testing.T) {
 	env := vh.GetEnv()
 	run := vh.NewRun(env, "AM.Run.C12Run")
@@ -1378,8 +1441,12 @@ func TestCheck(t *testing.T) {
 		if err := vh.LoadReplayCase(env.Replay, &c); err != nil {
 			t.Fatal(err)
 		}
-		term, viol, tags := runCase(t, &c, nil, 0, "ext0")
-		finish(&c, term, viol, tags)
+		if c.Race != nil {
+			judgeRace(t, run, *c.Race)
+		} else {
+			term, viol, tags := runCase(t, &c, nil, 0, "ext0")
+			finish(&c, term, viol, tags)
+		}
 	} else {
 		for _, c := range vh.LoadCorpus[Case](env, "C12") {
 			c := c
@@ -1391,6 +1458,12 @@ func TestCheck(t *testing.T) {
 			c := c
 			term, viol, tags := runCase(t, &c, nil, 0, "ext0")
 			tags["scripted/shortened-deadline"]++
+			finish(&c, term, viol, tags)
+		}
+		for _, c := range nearLimitCases(t) {
+			c := c
+			term, viol, tags := runCase(t, &c, nil, 0, "ext0")
+			tags["scripted/near-size-limit"]++
 			finish(&c, term, viol, tags)
 		}
 		n := env.N(500, 10)
@@ -1410,6 +1483,10 @@ func TestCheck(t *testing.T) {
 			term, viol, tags := runCase(t, c, cg, cg.Range(4, maxOps), "ext0")
 			finish(c, term, viol, tags)
 		}
+	}
+	if env.Replay == "" {
+		// concurrent engine: a history-rewriting Set racing an in-place Set / a peer Merge of the same id, on real cores
+		judgeRace(t, run, racePlan(env))
 	}
 	if err := run.Finish("adaptive random histories of Set/Expire/GC/Query/Reload and POST/DELETE/GET handler calls on 1-4 silences under synctest virtual time, instants at start/end/end+retention -1/0/+1 ns; after every op the st/mi/vi/version bookkeeping and the full content are read; non-trivial = at least two Set/POST and one Expire/DELETE/GC; distinct by full history text"); err != nil {
 		t.Fatal(err)
